@@ -36,6 +36,7 @@ def run(sess: Session):
                           functions=('wn/schema.sql',)))
     for ob in placeholder_identity_obligations():
         sess.check(ob)
+    expand_bounded(sess)
     # an explicit expand argument is a specifier list resolved by find_lexicons (token by token)
     from contracts import C08 as _c08
     try:
@@ -85,3 +86,62 @@ def placeholder_identity_obligations() -> list:
                           detail='two synsets with the same rowid and lexicon but different ILIs (inferred placeholders) '
                                  'must hash over different values, otherwise sets and dicts merge them', **cm))
     return obs
+
+
+def expand_bounded(sess: Session):
+    """Native stand-in: a lexicon L (five synsets linked to the taxonomy lexicon only through ILIs) expanded by the
+    taxonomy lexicon of bounded/determinism.py - borrowed hypernyms/hyponyms against a reference computed from the
+    source data: one result per (relation, target ILI); a target ILI without synset in L gives one placeholder per ILI
+    (several placeholders must not be merged), expand='' borrows nothing."""
+    import os
+    import shutil
+    import tempfile
+    import wn
+    from bounded import determinism as D
+    work = tempfile.mkdtemp(prefix='wnexp12')
+    old = wn.config.data_directory
+    bad, cases = [], 0
+    try:
+        D.build(work)
+        wn.config.data_directory = os.path.join(work, 'data')
+        tax = D.taxonomy_lexicon()
+        ili_of = {ss['id']: ss['ili'] for ss in tax['synsets']}
+        rels = {ss['id']: [(r['relType'], r['target']) for r in ss.get('relations', [])] for ss in tax['synsets']}
+        by_ili = {ss['ili']: ss['id'] for ss in tax['synsets']}
+        local = {'i1': 'u-1', 'i3': 'u-2', 'i0': 'u-3', 'i5': 'u-4', 'i6': 'u-5'}
+        w = wn.Wordnet('u:1', expand='t:1')
+        w0 = wn.Wordnet('u:1', expand='')
+        for ili, uid in local.items():
+            src = by_ili[ili]
+            for rel in ('hypernym', 'hyponym'):
+                cases += 1
+                want = sorted((local.get(ili_of[t], '*INFERRED*'), ili_of[t]) for r, t in rels[src] if r == rel)
+                got = sorted((s.id, s._ili) for s in w.synset(uid).get_related(rel))
+                if got != want:
+                    bad.append({'synset': uid, 'relation': rel, 'got': got, 'expected': want})
+                got2 = sorted((s.id, s._ili) for ss in [w.synset(uid)] for k, v in ss.relations(rel).items() for s in v)
+                if got2 != want:
+                    bad.append({'synset': uid, 'relation': rel, 'relations()': got2, 'expected': want})
+                if w0.synset(uid).get_related(rel):
+                    bad.append({'synset': uid, 'relation': rel, "expand=''": 'borrows relations'})
+        # several placeholders in one result: the root concept's hyponyms c1 (i3) and c2 (i4) are both absent from v
+        cases += 1
+        wv = wn.Wordnet('v:1', expand='t:1')
+        got = sorted((s.id, s._ili) for s in wv.synset('v-1').hyponyms())
+        want = [('*INFERRED*', 'i3'), ('*INFERRED*', 'i4')]
+        if got != want:
+            bad.append({'synset': 'v-1', 'relation': 'hyponym', 'got': got, 'expected': want})
+        got = sorted((s.id, s._ili) for s in wv.synset('v-1').get_related('hyponym'))
+        if got != want:
+            bad.append({'synset': 'v-1', 'get_related': got, 'expected': want})
+    finally:
+        wn.config.data_directory = old
+        shutil.rmtree(work, ignore_errors=True)
+    sess.add_bounded('Synset.get_related / relations through an expand lexicon', '5 synsets x hypernym/hyponym over the '
+                     '11-synset taxonomy lexicon (several inferred placeholders per result)', cases,
+                     'native execution against a reference computed from the source data', not bad)
+    if bad:
+        sess.violation_direct('wn._core.Synset.get_related:expand:bounded', 'borrowed relations differ from the reference',
+                              {'witness': bad[:3]}, True, functions=('wn._core.Synset.get_related',
+                                                                     'wn._core.Synset._iter_expanded_relations',
+                                                                     'wn._util.unique_list'))
